@@ -8,6 +8,8 @@ package c10
 // Part B (range_test.go): every range claim over height-<=3 embedded tries, with / without boundary proofs.
 // Part C (rpc_test.go): starknet_getStorageProof (v9, v10; both state backends) on enumerated small chains, checked
 //   by the independent verifier against the block's global state root.
+// Part D (batch_test.go): every sequence of <= L keys proven into ONE node set (what the RPC and GetRangeProof do), every
+//   key of the sequence checked against the shared set after every Prove; GetRangeProof's set establishes both boundaries.
 
 // Violation keys seen on the unchanged tree (all reproduced with juno's API alone in repro_test.go, C10_REPRO=1):
 //   rpc-v9|v10 storage-proofs-not-in-request-order      processStorageKeys ranges over a Go map: contracts_storage_proofs[i]
@@ -35,7 +37,7 @@ import (
 
 func TestCheck(t *testing.T) {
 	r := ev.Start("C10", "exploration")
-	r.SetBudget(ev.Pick(r, 140, 1500))
+	r.SetBudget(ev.Pick(r, 160, 1700))
 	only := os.Getenv("C10_ONLY")
 	// cheapest and closest to production first; the membership enumeration is the one a deadline may cut
 	t0 := time.Now()
@@ -49,6 +51,11 @@ func TestCheck(t *testing.T) {
 	}
 	r.Set("seconds_range", time.Since(t0).Seconds())
 	t0 = time.Now()
+	if only == "" || only == "batch" {
+		runBatch(r)
+	}
+	r.Set("seconds_batch", time.Since(t0).Seconds())
+	t0 = time.Now()
 	if only == "" || only == "member" {
 		runMembership(r)
 	}
@@ -58,6 +65,7 @@ func TestCheck(t *testing.T) {
 	r.Assume = append(r.Assume,
 		"Pedersen/Poseidon primitives and felt arithmetic are trusted (pinned by juno's known-answer tests)",
 		"juno's VerifyProof/VerifyRangeProof hard-code height 251: height-2/3 tries are checked by them through three order-preserving embeddings into height 251; the native height-2/3 tries are checked by the independent verifier only",
+		"batches (Part D): keys are drawn from the trie's logical universe (all 2^h keys; the 9 crafted keys), sequences of <=L keys with repetition, depth-first with the set cloned at every branch (clones share node objects); juno's VerifyProof runs on the key proven last after every Prove and on every key of the whole-universe and GetRangeProof sets; the empty trie is left to Part A",
 		"felt-field alteration alphabet: +1, 0 and every other felt occurring in the proof/root/value; edge path: bit flips at positions {0,1,len/2,len-2,len-1}; edge length: +-1 (both path alignments), 0, 251; node kind flips; removal; pairwise swap",
 	)
 	r.Finish()
